@@ -13,8 +13,9 @@ TESTS = {
     "s3": ("streams.py", "streams", "_idxs = idxs[i * n : n * (i + 1) + 1]", "_idxs = idxs[i * n : n * (i + 1)]", "GenSegStreamsEq"),
     "s4": ("streams.py", "streams", "for idx0 in seq[::-1]:  # up- to downstream", "for idx0 in seq:", "GenSegStreamsEq"),
     "s5": ("streams.py", "streams", "k = round(l / max_len)", "k = int(l / max_len)", "GenSegStreamsEq"),
-    "i1": ("subgrid.py", "segment_indices", "if len(idxs) > 1:", "if len(idxs) > 0:", "GenSegIndicesEq"),
-    "i2": ("subgrid.py", "segment_indices", "len(idxs) == max_len)", "len(idxs) == max_len + 1)", "GenSegIndicesEq"),
+    "i1": ("subgrid.py", "segment_indices", "if l > 1:", "if l > 0:", "GenSegIndicesEq"),
+    "i2": ("subgrid.py", "segment_indices", "_idxs = idxs[j * n : n * (j + 1) + 1]", "_idxs = idxs[j * n : n * (j + 1)]", "GenSegIndicesEq"),
+    "i4": ("subgrid.py", "segment_indices", "if (l / max_len) > 1.5:", "if (l / max_len) > 2.5:", "GenSegIndicesEq"),
     "i3": ("subgrid.py", "segment_indices", "pit = idx1 == idx", "pit = idx1 != idx", "GenSegIndicesEq"),
     "l1": ("subgrid.py", "segment_length", "rivlen[i] = abs(distnc[idx] - x0)", "rivlen[i] = distnc[idx] - x0", "GenSegWalkEq"),
     "l2": ("subgrid.py", "segment_length", "if outlets[idx1]:", "if not outlets[idx1]:", "GenSegWalkEq"),
